@@ -1,7 +1,7 @@
 (* C02 - soundness of callVariant.  Level S: theorems about the specification Model/Spec.v; the engine
    is tied to `realizable` by the correspondence harness/props/c02.py only. *)
 From MoPep Require Import Model.Base Model.Rule Model.Digest Model.Spec Model.SpecStmt Gen.Bio
-                          Proofs.SpecProofs.
+                          Proofs.SpecProofs Model.Retry Proofs.RetryProofs.
 Open Scope Z_scope.
 
 (* The C02 decider is the property's statement (Realizable, Model/SpecStmt.v): some non-empty, pairwise
@@ -24,6 +24,39 @@ Theorem skip_routes_sound : forall (L : Type) (lab : nat -> list L) alive sc fue
   In w (spelled L lab (limited alive sc) fuel n) -> In w (spelled L lab sc fuel n).
 Proof. exact skip_routes_sound_lemma. Qed.
 Print Assumptions skip_routes_sound.
+
+(* ---- the retry clause: faithful model (Level F) of call_variant_peptide.caller_reducer, Model/Retry.v ---- *)
+
+(* If every attempt times out, the loop ends in ValueError after at most
+   len(max-variants-per-node tuple) + max(0, last element - 1) attempts: retries cannot go on forever. *)
+Theorem retry_terminates : forall mvs avs, mvs <> [] ->
+  snd (attempts (length mvs + Z.to_nat (Z.max 0 (last mvs 0 - 1))) (rinit mvs avs)) = true.
+Proof. exact retry_terminates_lemma. Qed.
+Print Assumptions retry_terminates.
+
+(* For non-increasing CLI tuples (a negative value = limit disabled = loosest) the limit pairs tried by
+   successive attempts are pointwise non-increasing, for any number of timeouts: retries only tighten. *)
+Theorem retry_limits_decrease : forall mvs avs n,
+  mvs <> [] -> avs <> [] -> nonincreasing mvs = true -> nonincreasing avs = true ->
+  pairs_tighten (fst (attempts n (rinit mvs avs))) = true.
+Proof. exact retry_limits_decrease_lemma. Qed.
+Print Assumptions retry_limits_decrease.
+
+(* once the tuple is used up each retry lowers max-variants-per-node by exactly one (and needs it > 1) *)
+Theorem retry_after_exhaustion : forall x avs av s',
+  on_timeout (mkR [x] avs x av) = Retry s' ->
+  1 < x /\ r_mv s' = x - 1 /\ r_mvs s' = [x - 1] /\ r_av s' = hdz (next_avs avs).
+Proof. exact retry_after_exhaustion_lemma. Qed.
+Print Assumptions retry_after_exhaustion.
+
+(* The hypothesis on the tuples is needed: the code walks the tuples in the order given, so with
+   --max-variants-per-node 3 7 the first retry LOOSENS the limit.  (Soundness is not affected: every
+   limit value only removes routes, skip_routes_sound.) *)
+Example retry_follows_tuple_order : fst (attempts 1 (rinit [3; 7] [2])) = [(3, 2); (7, 0)].
+Proof. vm_compute. reflexivity. Qed.
+Example retry_default_cli : attempts 9 (rinit [7] [2]) =
+  ([(7, 2); (6, 0); (5, 0); (4, 0); (3, 0); (2, 0); (1, 0)], true).
+Proof. vm_compute. reflexivity. Qed.
 
 (* Non-vacuity (same example as C01): MAKDWR is realizable, the reference peptide MAKGWR is not *)
 Definition ex_tx2 : seq := [65;84;71; 71;67;84; 65;65;65; 71;71;84; 84;71;71; 67;71;84; 84;65;65].
